@@ -1,4 +1,6 @@
 """C18 — CLI exit codes and the argument-to-context contract."""
+import re
+
 import c18_gen
 import c18_mon
 import c18_run
@@ -84,7 +86,7 @@ def nat_max(terms):
     return acc
 
 
-def planned_end(case):
+def planned_end(case, obs=None):
     """How the runner call ends, from the case alone (subprocess runs cannot spy on it)."""
     e = case['ending']
     how = e['how']
@@ -96,6 +98,11 @@ def planned_end(case):
         return ['kbd']
     if how == 'sysexit':
         return ['sysexit', e['boom'].get('code')]
+    if how == 'startup-error':
+        # main's own set-up failed: to the ladder an exception like any other.  Type and message
+        # depend on the machine (paths); they are read off the error line when there is one.
+        m = re.search(r'\n\x1b\[91m(\w+): ([^\x1b]*)\x1b\[0;0m\n', (obs or {}).get('stderr', ''))
+        return ['exc', m.group(1), m.group(2)] if m else ['exc', 'StartUpError', '(no error line on stderr)']
     if 'boom' not in e:
         return ['exc', 'Exception', '(not predictable from the case)']
     exc = c18_run.make_exc(e['boom'])
@@ -119,7 +126,9 @@ class Prop(PropBase):
             'process on argv rendered from a structured record (three call shapes, options in any '
             'order) against a generated pipeline that ends by completion, stop, stoppipeline, '
             'stopstepgroup, an Exception of 12 types, a handled error whose failure handler stops, '
-            'KeyboardInterrupt, SystemExit, another BaseException, a parser error, a missing pipeline '
+            'KeyboardInterrupt, SystemExit, another BaseException, a parser error, a missing pipeline, a '
+            'start-up fault of main itself (malformed / non-mapping ./pypyr-config.yaml, missing '
+            '$PYPYR_CONFIG_GLOBAL, --logpath in a missing directory; child processes with the real config look-up) '
             'or with a group the pipeline does not have (skipped). non-trivial = parser given at least one token, an API/CLI run whose '
             'first step ran or that ended with a non-zero status; distinct by case hash')
     trusted_base = [
@@ -195,7 +204,7 @@ class Prop(PropBase):
             return f'(argv_rejected_verdict {argv})'
         terms = [f'(argv_verdict {argv} {coq_cli_args(parsed)})']
         sub = obs['mode'] == 'subproc'
-        end = planned_end(case) if sub else obs['end']
+        end = planned_end(case, obs) if sub else obs['end']
         if end is None:
             return '1%nat'
         call = 'None'
@@ -284,6 +293,8 @@ class Prop(PropBase):
             tags.append('cli:' + case['mode'])
             tags.append('end:' + case['ending']['how'])
             tags.append('form:' + case['form'])
+            if case.get('startup'):
+                tags.append('startup:' + case['startup'])
             if 'argparse_exit' in obs.get('parsed', obs):
                 tags.append('argparse-rejected')
             else:
